@@ -15,10 +15,7 @@ def availEnv : AvailEnv env where
   inv_step := fun _ _ _ _ _ _ => trivial
   mask_avail := fun _ _ _ _ h => h
   step_avail := fun _ _ _ => rfl
-  step_done := by
-    intro i s a
-    show decide (cnt i.n (upd s.avail a false) ≤ 0) = decide (cnt i.n (upd s.avail a false) = 0)
-    exact decide_eq_decide.mpr Nat.le_zero
+  step_done := fun i s a => (doneCmp_ok (cnt i.n (upd s.avail a false))).2.1
   reset_done := fun _ => rfl
   reset_cnt := by intro i; exact cnt_eq_n.mpr (fun _ _ => rfl)
 
